@@ -4,6 +4,7 @@ package main
 
 import (
 	"go.lstv.dev/util/internal/vsim/c17"
+	"go.lstv.dev/util/internal/vsim/c20"
 	"go.lstv.dev/util/internal/vsim/core"
 )
 
@@ -11,6 +12,8 @@ func lookup(id string) core.Property {
 	switch id {
 	case "C17":
 		return c17.Prop{}
+	case "C20":
+		return c20.Prop{}
 	}
 	return nil
 }
